@@ -4,6 +4,8 @@ import (
 	"encoding/json"
 	"fmt"
 	"net/http"
+	"net/url"
+	"os"
 	"strings"
 	"sync"
 	"sync/atomic"
@@ -85,9 +87,15 @@ func c05Body(s *simkit.Sim, rc *simkit.RunCtx) {
 		s.Fail("C05.harness", "setup", "%v", err)
 		return
 	}
-	kinds := []string{"s2s-nonce", "dpop-jti"}
+	kinds := []string{"s2s-nonce", "dpop-jti", "s2s-nonce-future-dated"}
 	kind := kinds[s.D.Decide("kind", len(kinds))]
 	k := 2 + s.D.Decide("concurrent", 2)
+	futureDated := kind == "s2s-nonce-future-dated"
+	if futureDated {
+		// a presentation whose validity starts a few seconds ahead (a client whose clock runs ahead, within the
+		// allowed skew): presented once and then replayed sequentially. One request at a time.
+		kind, k = "s2s-nonce", 1
+	}
 	sample.Kind, sample.Concurrent = kind, k
 
 	// what each concurrent request does, and whether its answer means "honoured"
@@ -100,7 +108,11 @@ func c05Body(s *simkit.Sim, rc *simkit.RunCtx) {
 		p.w.HTTP.LoseIf = func(req *http.Request) bool {
 			return req.Method == "POST" && strings.HasSuffix(req.URL.Path, "/oauth2/vendorA/token")
 		}
-		tr := p.cl.RequestServiceToken("vendorB", p.asServer, "simple", "Bearer", true)
+		scope := "simple"
+		if futureDated {
+			scope = "simple"
+		}
+		tr := p.cl.RequestServiceToken("vendorB", p.asServer, scope, "Bearer", true)
 		p.w.HTTP.LoseIf = nil
 		for _, r := range p.w.HTTP.Requests() {
 			if r.Method == "POST" && strings.HasSuffix(r.Path, "/token") {
@@ -111,8 +123,28 @@ func c05Body(s *simkit.Sim, rc *simkit.RunCtx) {
 			s.Fail("C05.harness", "capture", "no token request captured (client answered %d %s)", tr.Code, tr.Body)
 			return
 		}
+		if futureDated {
+			form, err := url.ParseQuery(string(captured))
+			if err != nil || !strings.HasPrefix(strings.TrimSpace(form.Get("assertion")), "{") {
+				s.Fail("C05.harness", "capture", "the captured presentation is not a JSON-LD one: %s", trunc(string(captured), 200))
+				return
+			}
+			ahead := time.Duration(1+s.D.Decide("ahead-s", 5)) * time.Second
+			sample.Kind = fmt.Sprintf("s2s-nonce (validity starts %v ahead)", ahead)
+			created := time.Now().Add(ahead)
+			forged, err := p.cl.ReissueLDPresentation([]byte(form.Get("assertion")), created, created.Add(5*time.Second), fmt.Sprintf("reissued-%d", s.D.Decide("nonce", 1000000)))
+			if err != nil {
+				s.Fail("C05.harness", "reissue", "%v", err)
+				return
+			}
+			form.Set("assertion", string(forged))
+			captured = []byte(form.Encode())
+		}
 		fire = func() bool {
 			code, body := p.as.CallForm("POST", "/oauth2/vendorA/token", string(captured))
+			if os.Getenv("C05DEBUG") != "" {
+				fmt.Println("TOKEN-ANSWER", code, trunc(strings.Join(strings.Fields(string(body)), " "), 1500))
+			}
 			return world.IsTokenResponse(code, body)
 		}
 	case "dpop-jti":
@@ -183,7 +215,14 @@ func c05Body(s *simkit.Sim, rc *simkit.RunCtx) {
 	// ---- sequential replays: at once, later within the window, after the window ----
 	// (the waits add up: +0, +2, +4, +6, +8, +11, +21 s, +14 min, +16 min, +36 min: inside the presentation's validity, inside the
 	// clock-skew allowance after it, around the expiry of the stored nonce / jti, and long after)
-	for _, wait := range []time.Duration{0, 2 * time.Second, 2 * time.Second, 2 * time.Second, 2 * time.Second, 3 * time.Second, 10 * time.Second, 14 * time.Minute, 2 * time.Minute, 20 * time.Minute} {
+	waits := []time.Duration{0, 2 * time.Second, 2 * time.Second, 2 * time.Second, 2 * time.Second, 3 * time.Second, 10 * time.Second, 14 * time.Minute, 2 * time.Minute, 20 * time.Minute}
+	if futureDated || s.D.Decide("patient-replay", 3) == 1 {
+		// a refused replay stores the nonce / jti again, which renews its lifetime: a patient replayer waits instead, and
+		// comes back once, at a seeded moment around the end of the stored value's lifetime and of the validity window
+		first := 9500*time.Millisecond + time.Duration(s.D.Decide("patient-wait-500ms", 14))*500*time.Millisecond
+		waits = []time.Duration{first, 2 * time.Second, 15 * time.Minute, 20 * time.Minute}
+	}
+	for _, wait := range waits {
 		if wait > 0 {
 			s.Advance(wait)
 		}
